@@ -80,11 +80,29 @@ Theorem C04_insert_body_symbolic_expressions :
     end.
 Proof. exact insert_body_symex. Qed.
 
+(* ... and the same for symbolicExpressionSizes (the third offset table, keyed by the interval): the patch's size entries at their offset
+   inside the patch, the old ones in front where they were, none on the replaced bytes, the ones behind moved by the change of length *)
+Theorem C04_insert_body_symbolic_expression_sizes :
+  forall s b first last lastk end_block added_ft bi offset repl code p pcfg pprox k,
+    (3 <= length (otabs s))%nat -> 0 <= repl -> NoDup (map fst (p_symsizes p)) ->
+    let x := the_blk s b in
+    let base := boff x + offset in
+    let E := boff x + bsize x in
+    let L := Z.of_nat (length (p_data p)) in
+    tab_get (sizes_tab (insert_body s b first last lastk end_block added_ft bi offset repl code p pcfg pprox)) bi k =
+    match dget (k - base) (p_symsizes p) with
+    | Some v => Some v
+    | None => if k <? E then tab_get (sizes_tab s) bi k else if k <? E + L then None else tab_get (sizes_tab s) bi (k - (L - repl))
+    end.
+Proof. exact insert_body_sizes. Qed.
+
 (* non-vacuity: `call` patch (5 bytes, operand at 1) replaces 1 byte behind a 2-byte head in an interval with expressions at 0 and 4 *)
 Example C04_insert_body_example :
   let s := mk_st [(0%nat, mk_blk KCode (Some 100%nat) 0 2); (1%nat, mk_blk KCode (Some 100%nat) 3 6)]
                  [(100%nat, mk_ival 0 [235; 0; 144; 144; 232; 0; 0; 0; 0] [(1, 11); (5, 12)])] [(0%nat, [0%nat; 1%nat])]
-                 (RefCache.mk_rc [] []) [] [] [] [] [] [] [] [[]; []; []] [] [[]; []; []; []] None 900 in
+                 (RefCache.mk_rc [] []) [] [] [] [] [] [] [] [[]; []; [(100%nat, [(1, 1); (5, 4)])]] [] [[]; []; []; []] None 900 in
   let p := mk_patch [232; 0; 0; 0; 0] [(200%nat, KCode, 0, 5)] [] [] [] [(1, 13)] [(1, 4)] [] [] [] in
-  map (symex_at (insert_body s 0 200 200 KCode 1 None 100 2 1 true p [] []) 100%nat) [1; 3; 5; 9; 10] = [Some 11; Some 13; None; Some 12; None].
-Proof. vm_compute. reflexivity. Qed.
+  let s' := insert_body s 0 200 200 KCode 1 None 100 2 1 true p [] [] in
+  map (symex_at s' 100%nat) [1; 3; 5; 9; 10] = [Some 11; Some 13; None; Some 12; None] /\
+  map (tab_get (sizes_tab s') 100%nat) [1; 3; 5; 9; 10] = [Some 1; Some 4; None; Some 4; None].
+Proof. vm_compute. split; reflexivity. Qed.
